@@ -57,7 +57,7 @@ FAIL_AT = _CTX.Value("i", -1)
 HANG_AT = _CTX.Value("i", -1)
 
 
-HANG_SECONDS = 8
+HANG_SECONDS = 20
 
 
 def gated_task(index, payload):
@@ -92,29 +92,57 @@ logging.disable(logging.CRITICAL)
 from mc.props import c18
 from antismash.common.subprocessing import parallel_function
 n, k, fail_at, kind = int(sys.argv[1]), int(sys.argv[2]), int(sys.argv[3]), sys.argv[4]
+print("READY", flush=True)      # everything is imported: from here on only the call itself is timed
 try:
     print("RESULT", parallel_function(c18.dying_task, [[i, fail_at, kind] for i in range(n)], cpus=k), flush=True)
 except BaseException as err:
     print("ERROR", type(err).__name__, flush=True)
 """
-LOST_WORKER_WAIT = 6     # seconds; a healthy batch of these tasks returns in well under one
+LOST_WORKER_START = 300  # seconds allowed for the child to start up and import everything (never part of a verdict)
+LOST_WORKER_WAIT = 30    # seconds allowed for the call itself; a healthy batch of these tasks takes about a tenth of a second
 
 
 def check_lost_worker(n, k, fail_at, kind):
     """the real helper in a process of its own (a call that never returns cannot be abandoned inside this one): either the list a
-    sequential run gives or an error is acceptable, a call that is still blocked after LOST_WORKER_WAIT seconds is neither"""
+    sequential run gives or an error is acceptable, a call that is still blocked LOST_WORKER_WAIT seconds after it was made is
+    neither. Start-up time of the child is not counted, and the healthy control is given ten times as long, so that a loaded
+    machine cannot turn into a verdict."""
     env = dict(os.environ)
     proc = subprocess.Popen([sys.executable, "-c", LOST_WORKER_CHILD, str(n), str(k), str(fail_at), kind], env=env,
                             stdout=subprocess.PIPE, stderr=subprocess.DEVNULL, text=True, start_new_session=True)
-    try:
-        out, _ = proc.communicate(timeout=LOST_WORKER_WAIT)
-    except subprocess.TimeoutExpired:
+
+    def kill():
         try:
             os.killpg(proc.pid, signal.SIGKILL)
         except ProcessLookupError:
             pass
-        proc.communicate()
-        return [("worker-lost-call-never-returns", f"n={n} k={k}: worker of task {fail_at} {kind}; neither a list nor an error after {LOST_WORKER_WAIT}s")]
+        proc.wait()
+
+    ready = {}
+
+    def wait_ready():
+        ready["line"] = proc.stdout.readline()
+    starter = threading.Thread(target=wait_ready, daemon=True)
+    starter.start()
+    starter.join(LOST_WORKER_START)
+    if not ready.get("line", "").startswith("READY"):
+        kill()
+        return [("lost-worker-harness-output", f"child did not get ready: {ready.get('line')!r} (exit {proc.returncode})")]
+    reader = {}
+
+    def read_rest():
+        reader["out"] = proc.stdout.read()
+    rest = threading.Thread(target=read_rest, daemon=True)
+    rest.start()
+    rest.join(LOST_WORKER_WAIT * (10 if fail_at < 0 else 1))
+    if rest.is_alive():
+        kill()
+        rest.join(5)
+        if fail_at < 0:
+            return [("lost-worker-harness-output", f"the healthy control n={n} k={k} did not return within {LOST_WORKER_WAIT * 10}s")]
+        return [("worker-lost-call-never-returns", f"n={n} k={k}: worker of task {fail_at} {kind}; neither a list nor an error {LOST_WORKER_WAIT}s after the call")]
+    proc.wait()
+    out = reader.get("out", "")
     line = (out.strip().splitlines() or [""])[-1]
     if line.startswith("ERROR"):
         return []
@@ -571,7 +599,7 @@ def run_shard(shard):
         import concurrent.futures  # pylint: disable=import-outside-toplevel
         cases = [(n, k, -1, "none") for n, k in shard[1]]       # the healthy control: must return the list, and quickly
         cases += [(n, k, position, kind) for n, k in shard[1] for position in range(n) for kind in ("killed", "exit")]
-        with concurrent.futures.ThreadPoolExecutor(max_workers=8) as executor:
+        with concurrent.futures.ThreadPoolExecutor(max_workers=len(cases)) as executor:
             verdicts = list(executor.map(lambda c: check_lost_worker(*c), cases))
         for (n, k, position, kind), fails in zip(cases, verdicts):
             res.evals += 1
